@@ -107,6 +107,25 @@ fn main() { loop { nap(); } }`},
 	{name: "spawn-sleep-years", endless: true, vmOnly: true, check: noOutput, src: `
 fn w(id: int) { time.sleep(500000000.0 + 1.0); println("w woke", id); }
 fn main() { for i in 0..N { spawn w(i); } time.sleep(700000000.0); println("main woke"); }`},
+	{name: "pow-huge-exponent", endless: false, check: nil, src: `
+fn main() {
+    let b = 3;
+    let e = 3600000000000000000;
+    let p = b ** e;
+    println("pow done", p > 0);
+    let q = 2;
+    q **= 62;
+    println("q", q);
+}`},
+	{name: "list-concat-with-itself", endless: false, check: nil, src: `
+fn main() {
+    let l = [1, 2];
+    l.concat(l);
+    println("len", l.len());
+    let o = new { items: [1] };
+    o.items.concat(o.items);
+    println("items", o.items.len());
+}`},
 	{name: "sleep-in-nested-try-last", endless: false, check: noOutput, src: `
 fn work() { try { time.sleep(3.0); } catch inner { } }
 fn main() { try { work(); } catch e { } }`},
